@@ -134,7 +134,7 @@ static void run_case(vf_case *c) { /* args: driver, k */
 	if (o.status) {
 		/* known finding (one pattern, identified by the innermost relic frame): error paths release arrays whose elements were never initialised */
 		const char *kf = NULL;
-		static const char *frames[] = {"dv_free_dynam", "in bn_clean ", "pp_mil_k12", "eb_mul_lnaf_imp", "eb_mul_ltnaf_imp", "ep_mul_glv_imp", "ep_mul_reg_glv", "ep_mul_naf_imp", "ep_mul_reg_imp", "ep2_mul_", "ep_mul_sim_", NULL};
+		static const char *frames[] = {"dv_free_dynam", "in bn_clean ", "pp_mil_k12", "pp_map_sim_oatep_k12", "eb_mul_lnaf_imp", "eb_mul_ltnaf_imp", "ep_mul_glv_imp", "ep_mul_reg_glv", "ep_mul_naf_imp", "ep_mul_reg_imp", "ep2_mul_", "ep_mul_sim_", NULL};
 		for (int q = 0; frames[q]; q++) if (strstr(o.report, frames[q])) kf = "L32-cleanup-of-uninitialised-temporaries";
 		vf_fail(kf, "%s: failing allocation %ld of %ld: %s", DRV[d].n, k, base.nalloc, o.report); return; }
 	if (!o.err) vf_fail(NULL, "%s: failure of allocation %ld of %ld was not reported (no error thrown or returned)", DRV[d].n, k, base.nalloc);
